@@ -58,3 +58,12 @@ Theorem C05_sg_table_reproduces_lines : forall N tbl a b n, (0 < N)%nat -> (N - 
   <= qnat N * sg_tol * Qabs (a + b * qnat n) + qnat N * (qnat N - 1) / 2 * sg_tol * Qabs b.
 Proof. exact sg_table_reproduces_lines. Qed.
 Print Assumptions C05_sg_table_reproduces_lines.
+
+(* ---- the generic (float / integer) model of the bit-exact stream, instantiated at the rationals, is the model above ---- *)
+From Signalo Require Base.Arith Model.Generic Proofs.Generic.
+Theorem C05_generic_conv : forall n coeffs taps x, Signalo.Model.Generic.g_conv_step Signalo.Base.Arith.Qar n coeffs taps x = Signalo.Model.Convolve.conv_step n coeffs taps x.
+Proof. exact Signalo.Proofs.Generic.gq_conv. Qed.
+Print Assumptions C05_generic_conv.
+Theorem C05_generic_normalized : forall coeffs, Signalo.Model.Generic.g_normalized Signalo.Base.Arith.Qar coeffs = Signalo.Model.Convolve.normalized coeffs.
+Proof. exact Signalo.Proofs.Generic.gq_normalized. Qed.
+Print Assumptions C05_generic_normalized.
